@@ -63,8 +63,7 @@ def showRes : Res → String
   | .unit => "P r -"
 
 def releaseLine (e : Release) : String :=
-  s!"P release rid={e.rid} size={e.snapshot.length}" ++
-    (if e.secure then s!" secure zero={if e.snapshot.all (· == some 0) then 1 else 0}" else "")
+  s!"P release rid={e.rid} size={e.snapshot.length} zero={if e.snapshot.all (· == some 0) then 1 else 0}"
 
 def stale (d : DState) (c : Nat) : Bool :=
   match (d.s.curs c).rid with
@@ -184,6 +183,65 @@ def step (d : DState) (t : List String) : DState × List String :=
       if ys.isEmpty || ys.length > 3 then bad else
       if ys.any d.forgedB.contains then (d, ["P skip forged"]) else exec d (.cat x ys) [x] []
     | _, _ => bad
+  | ["dump_tables"] =>
+    (d, [s!"P tolower {hexOf ((List.range 256).map fun i => tolower (UInt8.ofNat i))}",
+         s!"P hex2num {hexOf ((List.range 256).map fun i => hexToNum (UInt8.ofNat i))}"])
+  | ["buf_is_valid", b] => match B b with
+    | some b => (d, [s!"P r pred {if (d.s.bufs b).isValid then 1 else 0}"])
+    | _ => bad
+  | ["cur_is_valid", c] => match C c with
+    | some c => (d, [s!"P r pred {if (d.s.curs c).isValid then 1 else 0}"])
+    | _ => bad
+  | ["buf_from_c_str", b, hex] => match B b, parseHex? hex with
+    | some b, some bs => if !vacant d b then (d, ["P skip occupied"]) else exec d (.bufFromArray b (bs.takeWhile (· != 0))) [b] []
+    | _, _ => bad
+  | ["cur_from_c_str", c, hex] => match C c, parseHex? hex with
+    | some c, some bs => exec { d with forgedC := d.forgedC.erase c } (.curFromBytes c (bs.takeWhile (· != 0))) [] [c]
+    | _, _ => bad
+  | ["cur_from_string", c, hex] => match C c, parseHex? hex with
+    | some c, some bs => exec { d with forgedC := d.forgedC.erase c } (.curFromBytes c bs) [] [c]
+    | _, _ => bad
+  | ["write_from_whole_string", b, hex] => match B b, parseHex? hex with
+    | some b, some bs => exec d (.write b bs bs.length) [b] []
+    | _, _ => bad
+  | ["hash_ignore_case", c] => match C c with
+    | some c => guarded d [c] [] fun _ => exec d (.hashIgnoreCase c) [] []
+    | _ => bad
+  | "init_cache" :: b :: cs =>
+    match B b, cs.mapM C with
+    | some b, some cs =>
+      if cs.isEmpty || cs.length > 3 then bad else
+      if !vacant d b then (d, ["P skip occupied"]) else
+      if cs.any (stale d) then (d, ["P skip stale"]) else
+      -- aws_byte_buf_init_cache_and_update_cursors: AWS_ZERO_STRUCT(*dest), checked sum of the lengths,
+      -- aws_byte_buf_init, then aws_byte_buf_append_and_update for every cursor
+      let total := cs.foldl (fun acc c => acc.bind fun t => addChecked t (d.s.curs c).len) (some 0)
+      match total with
+      | none => (d, ["P r ERR AWS_ERROR_OVERFLOW_DETECTED"] ++ bufLines d b)
+      | some t =>
+        if t > LIMIT then (d, ["P skip huge"]) else
+        match AwsVerif.ByteBuf.step d.s (.init b t) with
+        | .error f => (d, [s!"P FAULT {repr f}"])
+        | .ok (_, s1) =>
+          let r := cs.foldl (fun (acc : Except Fault State) c => acc.bind fun st =>
+            (AwsVerif.ByteBuf.step st (.appendAndUpdate b c)).map (·.2)) (.ok s1)
+          match r with
+          | .error f => (d, [s!"P FAULT {repr f}"])
+          | .ok s2 =>
+            let d' := { d with s := s2 }
+            (d', ["P r OK"] ++ bufLines d' b ++ cs.map (curLine d'))
+    | _, _ => bad
+  | ["init_from_file", b, op, sl, hex, sched, mode, hint] =>
+    match B b, parseSize? sl, parseHex? hex, parseSize? hint with
+    | some b, some sl, some data, some hint =>
+      let sch : Option (List Nat) := if sched == "-" then some [] else (sched.splitOn ",").mapM (·.toNat?)
+      match sch with
+      | none => bad
+      | some sch =>
+        if !vacant d b then (d, ["P skip occupied"]) else
+        if (op != "0" && op != "1") || (mode != "hint" && mode != "nohint") || sl > 65536 || hint > 65536 then bad else
+        exec d (.initFromFile b ⟨op == "1", sl, data, sch⟩ (mode == "hint") hint) [b] []
+    | _, _, _, _ => bad
   | [nm, b, c] =>
     -- two-slot ops and (slot, operand) ops
     match nm with
@@ -287,9 +345,35 @@ def step (d : DState) (t : List String) : DState × List String :=
       | some x, some y => if d.forgedB.contains y then (d, ["P skip forged"]) else
         guarded d [x] [] fun _ => exec d (.curEqBuf x y (nm == "cur_eq_buf_ignore_case")) [] []
       | _, _ => bad
-    | "cur_eq_c_str" | "cur_eq_c_str_ignore_case" =>
+    | "cur_eq_c_str" | "cur_eq_c_str_ignore_case" | "array_eq_c_str" | "array_eq_c_str_ignore_case" =>
       match C b, parseHex? c with
-      | some x, some str => guarded d [x] [] fun _ => exec d (.curEqCStr x str (nm == "cur_eq_c_str_ignore_case")) [] []
+      | some x, some str => guarded d [x] [] fun _ => exec d (.curEqCStr x str (nm == "cur_eq_c_str_ignore_case" || nm == "array_eq_c_str_ignore_case")) [] []
+      | _, _ => bad
+    | "array_eq" | "array_eq_ignore_case" =>
+      match C b, C c with
+      | some x, some y => guarded d [x, y] [] fun _ => exec d (.curEq x y (nm == "array_eq_ignore_case")) [] []
+      | _, _ => bad
+    | "write_float_be32" | "write_float_be64" =>
+      match B b, parseU64? c with
+      | some b, some bits =>
+        if nm == "write_float_be32" then exec d (.writeBe b 4 (bits % 2^32)) [b] [] else exec d (.writeBe b 8 (bits % 2^64)) [b] []
+      | _, _ => bad
+    | "string_eq_cursor" | "string_eq_cursor_ignore_case" =>
+      -- aws_string_eq_byte_cursor[_ignore_case] : aws_array_eq on the string's bytes and the cursor
+      match parseHex? b, C c with
+      | some bs, some x =>
+        if stale d x then (d, ["P skip stale"]) else
+        match (if nm == "string_eq_cursor" then arrayEq else arrayEqIgnoreCase) d.s.mem.heap (.lit bs) (.cur (d.s.curs x)) with
+        | .ok r => (d, [s!"P r pred {if r then 1 else 0}"])
+        | .error f => (d, [s!"P FAULT {repr f}"])
+      | _, _ => bad
+    | "string_eq_buf" | "string_eq_buf_ignore_case" =>
+      match parseHex? b, B c with
+      | some bs, some x =>
+        if d.forgedB.contains x then (d, ["P skip forged"]) else
+        match (if nm == "string_eq_buf" then arrayEq else arrayEqIgnoreCase) d.s.mem.heap (.lit bs) (.cur (d.s.bufs x).asCur) with
+        | .ok r => (d, [s!"P r pred {if r then 1 else 0}"])
+        | .error f => (d, [s!"P FAULT {repr f}"])
       | _, _ => bad
     | _ => bad
   | [nm, c] =>
@@ -297,7 +381,8 @@ def step (d : DState) (t : List String) : DState × List String :=
     | "append_null_terminator" => match B c with
       | some b => if hugeDyn (d.s.bufs b) 1 then (d, ["P skip huge"]) else exec d (.appendNullTerminator b) [b] []
       | _ => bad
-    | "read_u8" | "read_be16" | "read_be24" | "read_be32" | "read_be64" | "read_hex_u8" | "parse_u64" | "parse_u64_hex" =>
+    | "read_u8" | "read_be16" | "read_be24" | "read_be32" | "read_be64" | "read_hex_u8" | "parse_u64" | "parse_u64_hex"
+    | "read_float_be32" | "read_float_be64" =>
       match C c with
       | some x =>
         let op : Op := match nm with
@@ -306,6 +391,8 @@ def step (d : DState) (t : List String) : DState × List String :=
           | "read_be24" => .readBe x 3
           | "read_be32" => .readBe x 4
           | "read_be64" => .readBe x 8
+          | "read_float_be32" => .readBe x 4
+          | "read_float_be64" => .readBe x 8
           | "read_hex_u8" => .readHexU8 x
           | "parse_u64" => .parseU64 x 10
           | _ => .parseU64 x 16
